@@ -178,7 +178,11 @@ class Folder:
         if isinstance(expr, ast.Subscript):
             v = f(expr.value)
             if isinstance(expr.slice, ast.Slice):
-                raise NotConst("slice")
+                sl = expr.slice
+                lo, hi, st = (None if x is None else f(x) for x in (sl.lower, sl.upper, sl.step))
+                if not all(x is None or isinstance(x, int) for x in (lo, hi, st)) or not isinstance(v, (str, bytes, list, tuple)):
+                    raise NotConst("slice")
+                return v[lo:hi:st]
             k = f(expr.slice)
             try:
                 return v[k]
